@@ -63,6 +63,12 @@ def responseStoreOK (s : Str × Str × Str × Str) : Bool :=
 def globalStores : List (Str × Str × Str) :=
   [(b!"policy", b!"addCheck", b!"defaultChecks"), (b!"policy", b!"addCheck", b!"experimentalChecks")]
 
+/-- F9: the only writes, outside init, to state that outlives a request: `CompleteConfiguration` filling in defaults of the
+    controller before it serves, and the administrator's setter of the user-namespace switch (an atomic.Bool) -/
+def stateWrites : List (Str × Str × Str) :=
+  [(b!"admission", b!"admission.Admission).CompleteConfiguration", b!"store through param:a"),
+   (b!"policy", b!"policy.RelaxPolicyForUserNamespacePods", b!"call atomic.Bool).Store on shared:relaxPolicyForUserNamespacePods")]
+
 def podSpecResources : List Str :=
   [b!"corev1/pods", b!"corev1/replicationcontrollers", b!"corev1/podtemplates", b!"appsv1/replicasets", b!"appsv1/deployments",
    b!"appsv1/statefulsets", b!"appsv1/daemonsets", b!"batchv1/jobs", b!"batchv1/cronjobs"]
